@@ -89,9 +89,9 @@ def run_inproc(argv: List[str]) -> dict:
         code = None
         exc = f"{type(e).__name__}: {str(e)[:160]}"
         tb = traceback.extract_tb(e.__traceback__)
-        where = [f for f in tb if "/repo/src/" in f.filename]
+        where = [f for f in tb if "/src/isla" in f.filename]
         if where:
-            exc += f" @ {where[-1].filename.split('/repo/src/')[-1]}:{where[-1].lineno}"
+            exc += f" @ {where[-1].filename.split('/src/')[-1]}:{where[-1].lineno}"
     return dict(code=code, out=out.getvalue(), err=err.getvalue(), exc=exc)
 
 
